@@ -884,7 +884,7 @@ func decideEnum(c enumCase, verbose bool) (vs []violation, counts map[string]int
 				// U+0085/U+2028/U+2029 written raw inside a JSON string: the YAML reader folds them
 				cause = "raw-line-break-char-in-string"
 			case containsArrayWithNull(a.v):
-				// the same defect as array/null-element-error in part 1 (fixed in 3c0640d6)
+				// the same defect as array/null-element-error in part 1 (fixed in b79232d9)
 				cause = "array-null-element"
 			}
 		}
